@@ -117,14 +117,14 @@ Qed.
 From TarsV Require Import Codec.RoundTrip Codec.RoundTripProofs Rpc.ValueWire Rpc.EndToEndFull.
 
 (* the regenerated schemas satisfy the conditions of the struct-level codec theorems (tags ascending, defaults on
-   scalars only, by-value struct nesting at most 2) *)
-Example fx_env0_wf : wf_schema 2 env0.
+   scalars only, by-value struct nesting at most 8 (robust against added IDL structs)) *)
+Example fx_env0_wf : wf_schema 8 env0.
 Proof. apply wf_schema_b_sound. vm_compute. reflexivity. Qed.
 
 Ltac typed_list := repeat (apply Forall2_cons; [cbn [fst fty]; apply (has_type_b_sound env0 8); vm_compute; reflexivity|]); apply Forall2_nil.
 Ltac fine_packet := repeat split; try reflexivity; repeat constructor.
 
-Example ex_sig_fine : sig_fine env0 2 4 ex_sig.
+Example ex_sig_fine : sig_fine env0 8 4 ex_sig.
 Proof.
   unfold sig_fine, sig_args_ok, ret_ok, ty_fine, fuel_static. cbn [ex_sig fs_args fs_ret].
   repeat split; try (vm_compute; reflexivity); try (vm_compute; lia).
@@ -158,7 +158,7 @@ Example ex_transparent_ok_closed :
   = (COk ex_ret ex_outs [ex_rc; ex_rs],
      core_events_at ex_pc ex_ps ex_sig [VInt 300; VStr [104; 105]; VInt (-1); ex_it 5; VBool true] ex_opts true).
 Proof.
-  rewrite (transparent_ok_closed env0 2 fx_env0_wf ltac:(lia) SR SP eq_refl eq_refl MAXP ltac:(vm_compute; reflexivity) 4
+  rewrite (transparent_ok_closed env0 8 fx_env0_wf ltac:(lia) SR SP eq_refl eq_refl MAXP ltac:(vm_compute; reflexivity) 4
              ex_impl_ok ex_pc ex_ps [ex_sig] ex_sig ex_args ex_opts 41 [79; 98; 106] 3000 ex_ret ex_outs ex_rc ex_rs).
   - vm_compute. reflexivity.
   - vm_compute. reflexivity.
@@ -179,7 +179,7 @@ Qed.
 Definition fx_sig : fsig :=
   {| fs_name := [109; 50]; fs_ret := Some TI32;
      fs_args := [(TI32, false); (TStr, false); (ex_item, false); (TStr, true); (TVec TI32, true); (ex_item, true); (TMap TStr TStr, true)] |}.
-Example fx_sig_fine : sig_fine env0 2 4 fx_sig.
+Example fx_sig_fine : sig_fine env0 8 4 fx_sig.
 Proof.
   unfold sig_fine, sig_args_ok, ret_ok, ty_fine, fuel_static. cbn [fx_sig fs_args fs_ret].
   repeat split; try (vm_compute; reflexivity); try (vm_compute; lia).
@@ -217,7 +217,7 @@ Proof. vm_compute. reflexivity. Qed.
 
 (* the instance of the full-strength value statement that the pinned code refuted now holds *)
 Theorem prefilled_out_witness :
-  find_fn [fx_sig] (fs_name fx_sig) = Some fx_sig /\ sig_fine env0 2 4 fx_sig /\ args_typed env0 (fs_args fx_sig) fx_args_prefilled /\
+  find_fn [fx_sig] (fs_name fx_sig) = Some fx_sig /\ sig_fine env0 8 4 fx_sig /\ args_typed env0 (fs_args fx_sig) fx_args_prefilled /\
   outs_small fx_sig fx_args_prefilled /\ results_typed env0 fx_sig (results ex_ret fx_outs_empty) /\
   req_sendable env0 SR MAXP fx_qp /\ rsp_sendable env0 SP MAXP (ok_reply env0 fx_sig fx_qp ex_ret fx_outs_empty ex_rc ex_rs) /\
   fst (call env0 SR SP MAXP fx_impl_empty (filters_of inv_res ex_pc) (filters_of disp_res ex_ps) [fx_sig] fx_sig fx_args_prefilled ex_opts false 41 [79; 98; 106] 3000)
@@ -237,7 +237,7 @@ Example fx_prefilled_by_theorem :
   call env0 SR SP MAXP fx_impl_empty (filters_of inv_res ex_pc) (filters_of disp_res ex_ps) [fx_sig] fx_sig fx_args_prefilled ex_opts false 41 [79; 98; 106] 3000
   = (COk ex_ret fx_outs_empty [ex_rc; ex_rs], core_events ex_pc ex_ps fx_sig fx_args_prefilled ex_opts true).
 Proof.
-  apply (transparent_ok_any_outs env0 2 fx_env0_wf ltac:(lia) SR SP eq_refl eq_refl MAXP ltac:(vm_compute; reflexivity) 4
+  apply (transparent_ok_any_outs env0 8 fx_env0_wf ltac:(lia) SR SP eq_refl eq_refl MAXP ltac:(vm_compute; reflexivity) 4
            fx_impl_empty ex_pc ex_ps [fx_sig] fx_sig fx_args_prefilled ex_opts 41 [79; 98; 106] 3000 ex_ret fx_outs_empty ex_rc ex_rs).
   - vm_compute. reflexivity.
   - exact fx_sig_fine.
@@ -338,7 +338,7 @@ Example cc_both_callers :
   conc_result env0 SP MAXP cc_chunks_p ex_sig ex_args ex_opts cc_q1 = COk ex_ret ex_outs [ex_rc; ex_rs] /\
   conc_result env0 SP MAXP cc_chunks_p fx_sig fx_args_prefilled ex_opts cc_q2 = COk ex_ret fx_outs_empty [ex_rc; ex_rs].
 Proof.
-  assert (H := concurrent_calls env0 2 fx_env0_wf ltac:(lia) SR SP eq_refl eq_refl MAXP ltac:(vm_compute; reflexivity) cc_impl
+  assert (H := concurrent_calls env0 8 fx_env0_wf ltac:(lia) SR SP eq_refl eq_refl MAXP ltac:(vm_compute; reflexivity) cc_impl
                  ex_pc ex_ps cc_iface [cc_q1; cc_q2] cc_sent cc_chunks_q cc_written cc_chunks_p
                  (Permutation.perm_swap _ _ _)).
   assert (Hnd : NoDup (map q_id [cc_q1; cc_q2])).
